@@ -5,8 +5,13 @@ package core
 
 import (
 	"testing"
+	"time"
+
+	"golang.org/x/sys/unix"
 
 	"rcproxy/core/codec"
+	"rcproxy/core/internal/netpoll"
+	"rcproxy/core/pkg/buffer/elastic"
 	"rcproxy/core/pkg/utils"
 )
 
@@ -49,5 +54,105 @@ func TestVerifSearch_SreadLate(t *testing.T) {
 			verifWitness(t, "conn.sread(late reply %q) changed the finished request: Done=%v FragDoneNumber=%d RspBody=%q", rep, msg.Done, msg.FragDoneNumber, msg.RspBody)
 			return
 		}
+	}
+}
+
+// TestVerifSearch_FlushWriteError: the flush in eventloop.sread when the write to the client fails and closing
+// the client reports an error (here: the descriptor is already invalid, so both writev and epoll_ctl(DEL) fail).
+// The event loop must survive it.
+func TestVerifSearch_FlushWriteError(t *testing.T) {
+	saved := EngineGlobal
+	defer func() { EngineGlobal = saved }()
+	eng := &engine{opts: &Options{}}
+	el := &eventloop{engine: eng, connections: map[int]*conn{}}
+	eng.el = el
+	eng.eventHandler = &BuiltinEventEngine{}
+	el.eventHandler = eng.eventHandler
+	p, err := netpoll.OpenPoller()
+	if err != nil {
+		t.Skipf("no poller: %v", err)
+	}
+	defer p.Close()
+	el.poller = p
+	EngineGlobal = &Engine{eng: eng, cCodec: CRespCodec{10000}, sCodec: SRespCodec{10000}}
+	sp, err := unix.Socketpair(unix.AF_UNIX, unix.SOCK_STREAM, 0)
+	if err != nil {
+		t.Skipf("socketpair: %v", err)
+	}
+	unix.Close(sp[0])
+	unix.Close(sp[1])
+	mk := func(fd int, typ ConnType) *conn {
+		c := &conn{fd: fd, loop: el, connType: typ, opened: true, initStatus: Initialized,
+			inMsgQueue: &MsgQueue{}, inFragQueue: &FragQueue{}, outFragQueue: &FragQueue{}}
+		c.outboundBuffer, _ = elastic.New(1 << 16)
+		c.pollAttachment = netpoll.GetPollAttachment()
+		c.pollAttachment.FD = fd
+		return c
+	}
+	client := mk(sp[0], ConnClient) // stale descriptor
+	back := mk(1001, ConnServer)
+	m := &Msg{Id: 1, Type: codec.ReqGet, Owner: client}
+	f := &Frag{Id: 1, Owner: client, Peer: m, Type: codec.ReqGet, Key: "k"}
+	m.Body = map[int32]*Frag{1: f}
+	client.EnqueueInMsg(m)
+	back.inFragQueue.PushTail(f)
+	back.buffer = []byte("$1\r\nA\r\n")
+	func() {
+		defer func() {
+			if r := recover(); r != nil {
+				verifWitness(t, "eventloop.sread panicked while flushing to a client whose socket write fails and whose close reports an error: %v", r)
+			}
+		}()
+		_ = el.sread(back)
+	}()
+}
+
+// TestVerifSearch_SreadGarbage: bytes from a backend that are not a RESP reply. The read handler must return
+// (leaving the bytes, or closing the connection); it must not spin on them.
+func TestVerifSearch_SreadGarbage(t *testing.T) {
+	saved := EngineGlobal
+	defer func() { EngineGlobal = saved }()
+	for _, in := range []string{"?what\r\n", "*x\r\n", "$-7\r\n", "\x00\x01\x02\r\n"} {
+		eng := &engine{opts: &Options{}}
+		el := &eventloop{engine: eng, connections: map[int]*conn{}}
+		eng.el = el
+		eng.eventHandler = &BuiltinEventEngine{}
+		el.eventHandler = eng.eventHandler
+		p, err := netpoll.OpenPoller()
+		if err != nil {
+			t.Skipf("no poller: %v", err)
+		}
+		el.poller = p
+		EngineGlobal = &Engine{eng: eng, cCodec: CRespCodec{10000}, sCodec: SRespCodec{10000}}
+		sp, err := unix.Socketpair(unix.AF_UNIX, unix.SOCK_STREAM, 0)
+		if err != nil {
+			t.Skipf("socketpair: %v", err)
+		}
+		back := &conn{fd: sp[0], loop: el, connType: ConnServer, opened: true, initStatus: Initialized,
+			inMsgQueue: &MsgQueue{}, inFragQueue: &FragQueue{}, outFragQueue: &FragQueue{}}
+		back.outboundBuffer, _ = elastic.New(1 << 16)
+		back.pollAttachment = netpoll.GetPollAttachment()
+		back.pollAttachment.FD = sp[0]
+		el.connections[sp[0]] = back
+		cli := new(mockedConn)
+		cli.On("Fd").Return(7)
+		m := &Msg{Id: 1, Type: codec.ReqGet, Owner: cli}
+		f := &Frag{Id: 1, Owner: cli, Peer: m, Type: codec.ReqGet, Key: "k"}
+		m.Body = map[int32]*Frag{1: f}
+		back.inFragQueue.PushTail(f)
+		back.buffer = []byte(in)
+		done := make(chan struct{})
+		go func() {
+			defer func() { recover(); close(done) }()
+			_ = el.sread(back)
+		}()
+		select {
+		case <-done:
+		case <-time.After(300 * time.Millisecond):
+			verifWitness(t, "eventloop.sread does not return on backend bytes %q that are not a RESP reply: the single event loop spins on them forever (the parse error is answered with `continue` and nothing is consumed)", in)
+			return
+		}
+		unix.Close(sp[1])
+		p.Close()
 	}
 }
